@@ -270,6 +270,9 @@ func C08(c *core.Ctx) {
 	// R5: the schema member of the document object
 	c.Rule("C08-R5", "schema.Object keeps the document's own $schema: unmarshalling assigns it only from the input bytes, marshalling inserts it", 2)
 	schemaObjectRule(c, "C08-R5")
+
+	// R6: the canonical string encoder leaves nothing out
+	c08Segments(c)
 }
 
 // mustPassBeforeSuccess checks that the call has been executed on every path to
@@ -340,6 +343,9 @@ func schemaObjectRule(c *core.Ctx, rule string) {
 						fromData = true
 					}
 				}
+				if fn := core.Callee(info, call); fromData && fn != nil && core.InModule(fn.Pkg()) {
+					schemaExtractRule(c, rule, fn)
+				}
 			}
 			if !fromData {
 				okAll = false
@@ -381,5 +387,53 @@ func schemaObjectRule(c *core.Ctx, rule string) {
 		c.Ob(rule, mfd.Name()+"#inserts-schema", mfd.Decl.Pos(), ok, "MarshalJSON does not insert the object's Schema into the serialised payload")
 	} else {
 		c.Ob(rule, "UNRESOLVED:schema.Object.MarshalJSON", token.NoPos, false, "method not found")
+	}
+}
+
+// schemaExtractRule: the function that reads the $schema of raw bytes returns,
+// on success, a member of a value decoded from those bytes by encoding/json
+// whose error was found nil. The decoder selects the top-level member whatever
+// the member order; any other way of locating "$schema" in the text (pattern
+// match, scan) can pick a nested object's member once members are re-ordered.
+func schemaExtractRule(c *core.Ctx, rule string, fn *types.Func) {
+	p := c.P
+	fd := p.DeclOf(fn)
+	if fd == nil {
+		c.Ob(rule, "UNRESOLVED:"+core.FuncName(fn), token.NoPos, false, "no body")
+		return
+	}
+	info := fd.Pkg.TypesInfo
+	sig := fn.Type().(*types.Signature)
+	if sig.Params().Len() < 1 || core.ErrResultIndex(sig) < 0 {
+		c.Undecided(rule, fd.Name()+"#decoded", fd.Decl.Pos(), "unexpected signature")
+		return
+	}
+	data := sig.Params().At(0)
+	ff := core.NewFuncFlow(fd)
+	decodes := core.CallsTo(info, fd.Decl.Body, func(f *types.Func) bool {
+		return f.Pkg() != nil && f.Pkg().Path() == "encoding/json" && (f.Name() == "Unmarshal" || f.Name() == "Decode")
+	})
+	n := 0
+	for _, r := range ff.Flow.Returns() {
+		if !ff.Flow.Reachable(r) || len(r.Results) == 0 {
+			continue
+		}
+		if k, _ := ff.ClassifyReturn(p, r); k == core.RetFailure {
+			continue
+		}
+		n++
+		ok := false
+		root, _ := core.FieldPath(info, r.Results[0])
+		for _, d := range decodes {
+			if len(d.Args) == 2 && core.VarOf(info, d.Args[0]) == data && root != nil && core.RootVar(info, d.Args[1]) == root &&
+				ff.Flow.PassedAt(r)[d] && ff.ErrNilAt(r, d) == 1 {
+				ok = true
+			}
+		}
+		c.Ob(rule, fmt.Sprintf("%s#decoded%d", fd.Name(), n), r.Pos(), ok,
+			"the schema ID returned here is not a member of a value decoded from the input by encoding/json with its error checked: the top-level $schema may be confused with a nested one when members are re-ordered")
+	}
+	if n == 0 {
+		c.Ob(rule, fd.Name()+"#decoded", fd.Decl.Pos(), false, "no success return")
 	}
 }
